@@ -3542,10 +3542,14 @@ impl VectorEngine {
             return Vec::new();
         }
 
-        // Get all matching keys
+        // Get all matching keys. Every stored embedding is a candidate: `list_keys()` stops
+        // after `max_keys_per_scan` keys and would silently drop matches beyond that page.
+        let prefix = Self::embedding_prefix();
         let matching_keys: Vec<String> = self
-            .list_keys()
+            .store
+            .scan(prefix)
             .into_iter()
+            .filter_map(|k| k.strip_prefix(prefix).map(String::from))
             .filter(|key| self.evaluate_filter_for_key(key, filter))
             .collect();
 
